@@ -260,6 +260,58 @@ def check(tier: str) -> Result:
     if parts is None and _ext(A) in ("jax.numpy.tril", "jax.numpy.triu"):
         verdict, why = False, f"the adjacency matrix is the single triangle {txt(A, 3, 60)}: edges exist in one direction only (not symmetric)"
     res.add("C10.R7", gcall.loc(), "logic.graph_coloring.generator.RandomGenerator.__call__", "the adjacency matrix is symmetric without self-loops by construction", verdict, why)
+    # ---- R8: Minesweeper draws exactly num_mines distinct cells out of all num_rows * num_cols cells; CVRP refuses a
+    # configuration in which a demand can exceed the capacity, and draws demands up to max_demand
+    mf = tree.functions.get("jumanji.environments.logic.minesweeper.utils.create_flat_mine_locations")
+    if mf is None:
+        raise AnalysisError("anchor minesweeper.utils.create_flat_mine_locations not found")
+    vm_ = _VFG(tree, _Model(tree))
+    mp = {p_: _mk("param", mf.qual, p_) for p_ in mf.params}
+    mr = _unc(vm_.apply_func(mf, None, None, [mp[p_] for p_ in mf.params], {}, None, None))
+    okm, whym = None, f"returns {txt(mr, 4, 120)} (form not compared)"
+    if _ext(mr) == "jax.random.choice":
+        kwm = dict(mr.args[2])
+        pop = kwm.get("a", mr.args[1][1] if len(mr.args[1]) > 1 else None)
+        shp = kwm.get("shape", mr.args[1][2] if len(mr.args[1]) > 2 else None)
+        rep = kwm.get("replace")
+        pop_ok = pop is not None and strip_cast(pop).kind == "bin" and strip_cast(pop).args[0] == "*" and \
+            {strip_cast(strip_cast(pop).args[1]), strip_cast(strip_cast(pop).args[2])} == {mp.get("num_rows"), mp.get("num_cols")}
+        shp0 = strip_cast(shp) if shp is not None else None
+        shp_ok = shp0 is not None and shp0.kind == "tuple" and len(shp0.args[0]) == 1 and strip_cast(shp0.args[0][0]) is mp.get("num_mines")
+        rep_ok = rep is not None and strip_cast(rep).kind == "const" and strip_cast(rep).args[0] is False
+        okm = bool(pop_ok and shp_ok and rep_ok)
+        whym = f"population num_rows*num_cols: {pop_ok}; shape (num_mines,): {shp_ok}; replace=False: {rep_ok}"
+    res.add("C10.R8", mf.loc(), "logic.minesweeper.utils.create_flat_mine_locations", "exactly num_mines distinct cells are drawn from all num_rows * num_cols cells", okm, whym)
+    cvc = [c for c in tree.environment_classes() if c.name == "CVRP"]
+    if not cvc:
+        raise AnalysisError("environment CVRP not found")
+    cinit = tree.find_method(cvc[0], "__init__")
+    vc_ = _VFG(tree, _Model(tree))
+    cself = _mk("self", cvc[0].qual)
+    vc_.apply_func(cinit, cself, cvc[0], [_mk("param", cinit.qual, p_) for p_ in cinit.params[1:]], {}, None, None)
+    from ..shapes import canon as _canon
+    from .common import raise_exits as _rx
+    from ..normal import ge_form as _ge
+    rej = None
+    tests = []
+    for fn_, node_, path_, _v in _rx(vc_):
+        for t_, pol_, pf_ in path_:
+            if not pol_ or pf_ is not cinit:
+                continue
+            g = _ge(t_)
+            tests.append(txt(t_, 3, 70))
+            if g is None or g[0] is None or g[1] is None:
+                continue
+            X, Y, k = g            # X >= Y + k
+            nx = _canon(vc_, X.args[1]) if X.kind == "attr" else None
+            ny = _canon(vc_, Y.args[1]) if Y.kind == "attr" else None
+            if nx == _canon(vc_, "max_demand") and ny == _canon(vc_, "max_capacity"):
+                # raise when max_demand >= max_capacity + k: k == 1 is `capacity < demand` (exact); k <= 0 also refuses equal values (still safe)
+                rej = k <= 1
+    if rej is None:
+        rej = False      # confirmed by reading on the pinned tree: the constructor compares the two; the comparison is gone
+    res.add("C10.R8", cinit.loc(), "routing.cvrp.env.CVRP.__init__", "a configuration with max_demand > max_capacity is refused (demands never exceed the capacity)", rej,
+            f"raising tests in __init__: {tests}" if tests else "no raising test found")
     # ---- R6: reset-side spawn helpers receive the value reset stores in the state, not an earlier version of it
     # (e.g. the first fruit sampled against the board before the snake's head is placed): borrowed from C07.R3
     from .common import borrow
